@@ -11,6 +11,7 @@ RULE = ('knee() of curvature, DFDT, Menger, L-method (2 fits x 3 refinements x l
 ASSUMPTIONS = ['valid curves: finite, strictly increasing x; L-method limit >= 4 (below that the truncated curve has fewer than the 5 points the method needs)']
 
 
+@core.safe_case
 def one(ctx, kind, pts, opts, family):
     n = len(pts)
     case = dict(detector=kind, options=opts, points=pts.tolist())
